@@ -200,6 +200,9 @@ type Script struct {
 	AutoFinish        After
 	AutoFinishVariant int
 	SessionID         string // default "4F3A9C21"
+	// OnPlay, when set, is called when a PLAY request is about to be answered
+	// (whatever the answer will be), before any byte of the answer is written.
+	OnPlay func()
 	SessionTimeout    bool   // append ";timeout=60" to the Session header (RFC 2326 §12.37)
 }
 
@@ -1120,6 +1123,9 @@ func (cn *conn) handle(r *Request) bool {
 		record("501")
 		cn.write([]byte(head(501, "Not Implemented") + "\r\n"))
 		return true
+	}
+	if r.Method == "PLAY" && sc.OnPlay != nil {
+		sc.OnPlay()
 	}
 	switch b.Kind {
 	case BadStatusLine:
